@@ -33,7 +33,7 @@ func init() {
 const croltURL = "http://127.0.0.1:1/verif" // closed port: Job.Do fails fast
 
 func genCrolt(r *rand.Rand, n int, tier string) []Case {
-	accounts := []string{"homer", "ab", "bart", "x", "marge"}
+	accounts := []string{"homer", "homer2", "ab", "abc", "x"} // (names that are prefixes of one another: same partition, adjacent keys)
 	ids := []string{"1", "2", "3"}
 	var cases []Case
 	for i := 0; i < n; i++ {
